@@ -348,6 +348,156 @@ def oracle(res, nmodels):
   return fails
 
 
+# ------------------------------------------------------- batched (per-world) margin / gap oracle
+def batched_scene(rng):
+  """Spheres / capsules on free bodies, surface distances of a few cm, explicit pairs (also between geoms
+  that fail the bitmask test and between excluded bodies) next to dynamically filtered pairs."""
+  n = int(rng.integers(3, 8))
+  body, names = "", []
+  for k in range(n):
+    pos = rng.uniform(-0.22, 0.22, 3)
+    gt = str(rng.choice(["sphere", "sphere", "capsule"]))
+    size = "0.08" if gt == "sphere" else "0.05 0.06"
+    ct, ca = (1, 1) if rng.random() < 0.7 else (2, 4)
+    names.append(f"g{k}")
+    body += f'<body name="b{k}" pos="{_f(pos)}" quat="{_f(rng.normal(0, 1, 4))}"><freejoint/><geom name="g{k}" type="{gt}" size="{size}" contype="{ct}" conaffinity="{ca}"/></body>'
+  contact, seen = "", set()
+  for _ in range(int(rng.choice([1, 2, 3]))):
+    a, b = (int(x) for x in rng.choice(n, 2, replace=False))
+    if (min(a, b), max(a, b)) in seen:
+      continue
+    seen.add((min(a, b), max(a, b)))
+    contact += f'<pair geom1="{names[a]}" geom2="{names[b]}" condim="{int(rng.choice([1, 3]))}"/>'
+  if rng.random() < 0.4 and n >= 3:
+    a, b = (int(x) for x in rng.choice(n, 2, replace=False))
+    contact += f'<exclude body1="b{a}" body2="b{b}"/>'
+  return f'<mujoco><option gravity="0 0 0"/><worldbody>{body}</worldbody><contact>{contact}</contact></mujoco>'
+
+
+def batched_rows(rng, m, nworld):
+  """Per-world rows of pair_margin / pair_gap / geom_margin / geom_gap with every pair's contact threshold
+  placed around its actual surface distance, so that worlds disagree on which pairs are in contact."""
+  import mujoco
+
+  ref = m.__copy__()
+  ref.pair_margin[:] = 10.0
+  ref.geom_margin[:] = 10.0
+  ref.geom_contype[:] = 1
+  ref.geom_conaffinity[:] = 1
+  d = mujoco.MjData(ref)
+  mujoco.mj_kinematics(ref, d)
+  mujoco.mj_comPos(ref, d)
+  mujoco.mj_collision(ref, d)
+  dist = {}
+  for c in d.contact:
+    dist[tuple(sorted((int(c.geom[0]), int(c.geom[1]))))] = float(c.dist)
+  pm = np.zeros((nworld, m.npair))
+  pg = np.zeros((nworld, m.npair))
+  for i in range(m.npair):
+    dd_ = max(dist.get(tuple(sorted((int(m.pair_geom1[i]), int(m.pair_geom2[i])))), 0.05), 0.01)
+    pm[:, i] = rng.uniform(0, 0.9 * dd_, nworld)
+    pg[:, i] = rng.uniform(0, 0.9 * dd_, nworld)
+  # geoms: half the smallest positive distance to any other geom, split between margin and gap
+  gm = np.zeros((nworld, m.ngeom))
+  gg = np.zeros((nworld, m.ngeom))
+  for g in range(m.ngeom):
+    ds = [v for k, v in dist.items() if g in k and v > 0]
+    dd_ = min(ds) if ds else 0.05
+    gm[:, g] = rng.uniform(0, 0.45 * dd_, nworld)
+    gg[:, g] = rng.uniform(0, 0.45 * dd_, nworld)
+  return [np.asarray(x, dtype=np.float32).astype(np.float64) for x in (pm, pg, gm, gg)]
+
+
+def batched_reference(m, pm, pg, gm, gg):
+  """MuJoCo contacts for a model holding ONE world's parameter rows: {pair: (dim, includemargin)}"""
+  import mujoco
+
+  ref = m.__copy__()
+  ref.pair_margin[:], ref.pair_gap[:], ref.geom_margin[:], ref.geom_gap[:] = pm, pg, gm, gg
+  d = mujoco.MjData(ref)
+  mujoco.mj_kinematics(ref, d)
+  mujoco.mj_comPos(ref, d)
+  mujoco.mj_collision(ref, d)
+  return {tuple(sorted((int(c.geom[0]), int(c.geom[1])))): (int(c.dim), float(c.includemargin), float(c.dist)) for c in d.contact}
+
+
+def batched_run(xml, nworld, rows, layout):
+  """-> list of per-world differences between mjw.collision (batched Model fields) and per-world MuJoCo references.
+  layout = (margin per-world?, gap per-world?) applied to both the pair_* and the geom_* fields; a shared field
+  holds row 0."""
+  import mujoco
+  import warp as wp
+
+  import mujoco_warp as mjw
+  from mujoco_warp._src.types import ContactType
+
+  m = mujoco.MjModel.from_xml_string(xml)
+  pm, pg, gm, gg = rows
+  bm, bg = layout
+  mm = mjw.put_model(m)
+  use = lambda r, batched: r if batched else r[:1]  # noqa: E731
+  mm.pair_margin = wp.array(use(pm, bm), dtype=float)
+  mm.pair_gap = wp.array(use(pg, bg), dtype=float)
+  mm.geom_margin = wp.array(use(gm, bm), dtype=float)
+  mm.geom_gap = wp.array(use(gg, bg), dtype=float)
+  d = mujoco.MjData(m)
+  mujoco.mj_kinematics(m, d)
+  dd = mjw.put_data(m, d, nworld=nworld, nconmax=max(64, 4 * m.ngeom * m.ngeom))
+  mjw.kinematics(mm, dd)
+  mjw.collision(mm, dd)
+  n = int(dd.nacon.numpy()[0])
+  geom, wid = dd.contact.geom.numpy()[:n], dd.contact.worldid.numpy()[:n]
+  ctype, inc, dim = dd.contact.type.numpy()[:n], dd.contact.includemargin.numpy()[:n], dd.contact.dim.numpy()[:n]
+  explicit = {tuple(sorted((int(a), int(b)))) for a, b in zip(m.pair_geom1, m.pair_geom2)}
+  diffs, stats = [], {"contacts": 0, "explicit_contacts": 0}
+  for w in range(nworld):
+    row = lambda r, batched: r[w] if batched else r[0]  # noqa: E731
+    want = batched_reference(m, row(pm, bm), row(pg, bg), row(gm, bm), row(gg, bg))
+    got = {}
+    for c in range(n):
+      if wid[c] == w and (ctype[c] & int(ContactType.CONSTRAINT)):
+        got[tuple(sorted((int(geom[c][0]), int(geom[c][1]))))] = (int(dim[c]), float(inc[c]))
+    stats["contacts"] += len(want)
+    stats["explicit_contacts"] += len(set(want) & explicit)
+    for k in sorted(set(want) | set(got)):
+      a, b = want.get(k), got.get(k)
+      if a is None or b is None or a[0] != b[0] or abs(a[1] - b[1]) > 1e-5:
+        # a threshold within float32 round-off of the distance is a tie, not a disagreement
+        dk = a[2] if a is not None else None
+        diffs.append({"world": w, "pair": k, "explicit": k in explicit, "mujoco(dim,includemargin,dist)": a, "mjw(dim,includemargin)": b, "dist": dk})
+  return diffs, stats, m
+
+
+def batched_oracle(res, nscenes):
+  rng = np.random.default_rng(vlib.seed() + 1933)
+  found = {}
+  tot = {"contacts": 0, "explicit_contacts": 0, "runs": 0}
+  for s in range(nscenes):
+    xml = batched_scene(rng)
+    m = compile_model(xml)
+    if m is None or m.npair == 0:
+      continue
+    nworld = int(rng.integers(2, 5))
+    rows = batched_rows(rng, m, nworld)
+    for layout in ((False, False), (False, True), (True, False), (True, True)):
+      diffs, stats, _ = batched_run(xml, nworld, rows, layout)
+      res.count(nworld)
+      tot["runs"] += 1
+      for k in ("contacts", "explicit_contacts"):
+        tot[k] += stats[k]
+      res.nontrivial(("batched", s, layout, stats["contacts"], stats["explicit_contacts"]))
+      for d in diffs:
+        key = f"C19:batched:{'explicit' if d['explicit'] else 'dynamic'}-pair-contacts-differ-from-mujoco:margin={'per-world' if layout[0] else 'shared'}:gap={'per-world' if layout[1] else 'shared'}"
+        if key not in found:
+          found[key] = (
+            key,
+            f"world {d['world']} of {nworld}, geom pair {d['pair']}: MuJoCo (model holding that world's margin/gap rows) reports {d['mujoco(dim,includemargin,dist)']}, mjw with batched Model fields reports {d['mjw(dim,includemargin)']}",
+            {"kind": "batched", "xml": xml, "nworld": nworld, "layout": list(layout), "rows": [r.tolist() for r in rows], "diff": d},
+          )
+  res.extra["batched_oracle"] = tot
+  return found
+
+
 SELF_PAIR_XML = """<mujoco><option gravity="0 0 0"/><worldbody>
  <body name="a" pos="0 0 1"><freejoint/><geom name="ga" type="sphere" size=".1"/></body>
  <body name="b" pos="0 0 1.4"><freejoint/><geom name="gb" type="sphere" size=".1"/><geom name="gb1" type="sphere" size=".1" pos="0 0 0.05"/></body>
@@ -428,7 +578,7 @@ def directed(res):
 # ------------------------------------------------------------------------------------------ run
 def run(res):
   quick = res.tier == "quick"
-  res.rule = "correspondence: random MJCF trees (1-7 bodies, 35% welded, 0-2 world geoms, contype/conaffinity from 13 bitmasks, 0-4 excludes, 0-4 explicit pairs, filterparent on/off); distinct = distinct (ngeom, npair, nexclude, #welded, disableflags, bitmask hash); oracle: same generator with all geoms overlapping, distinct adds the number of colliding pairs"
+  res.rule = "batched oracle: scenes with explicit and dynamic pairs, nworld 2-4, pair_margin/pair_gap/geom_margin/geom_gap in the 4 shared/per-world layouts with thresholds drawn around each pair's surface distance, per-world comparison with mujoco.mj_collision on a model holding that world's rows; correspondence: random MJCF trees (1-7 bodies, 35% welded, 0-2 world geoms, contype/conaffinity from 13 bitmasks, 0-4 excludes, 0-4 explicit pairs, filterparent on/off); distinct = distinct (ngeom, npair, nexclude, #welded, disableflags, bitmask hash); oracle: same generator with all geoms overlapping, distinct adds the number of colliding pairs"
   ok, trs, failing = propkit.prove(res, PROPS, gen_names=["math"], required_funcs=["upper_tri_index"])
   tr = trs.get("math")
   tbad = []
@@ -439,7 +589,11 @@ def run(res):
   fails = oracle(res, 100 if quick else 1000)
   for key, what, data in directed(res):
     res.violation(key, what, data)
-  for f in fails[:3]:
+  bfound = batched_oracle(res, 30 if quick else 300)
+  for key, what, data in list(bfound.values())[:4]:
+    res.violation(key, what, data)
+  fails = fails + [{"batched": k} for k in bfound]  # a concrete failing input exists: no "no-failing-input-found" line
+  for f in [f for f in fails if "diff" in f][:3]:
     d = f["diff"]
     if "pair" in d:
       key = "C19:oracle:contact-parameters-differ-from-mujoco"
@@ -475,6 +629,12 @@ def replay(res, path):
   if "xml" not in r:
     print("replay: no concrete input in this file (proof/correspondence breakage); re-run the check")
     return 1
+  if r.get("kind") == "batched":
+    diffs, stats, m = batched_run(r["xml"], int(r["nworld"]), [np.array(x) for x in r["rows"]], tuple(r["layout"]))
+    print("layout (margin per-world, gap per-world):", r["layout"], "nworld:", r["nworld"], stats)
+    for d in diffs:
+      print("DIFF", d)
+    return 1 if diffs else 0
   ref, got, m = run_both(r["xml"])
   print("mujoco pairs:", sorted(ref))
   rc = 0
